@@ -6,6 +6,8 @@
 #include "shim.h"
 
 #include <openssl/evp.h>
+#include <unistd.h>
+#include <sys/mman.h>
 
 using namespace pbt;
 
@@ -852,11 +854,22 @@ static Outcome run_huge(const Case &c) {
 static rc::Gen<Case> gen_far(int tier) {
   return rc::gen::noShrink(rc::gen::exec([tier]() {
     Case c;
-    c.push_back(Op("far", {tier ? *range<int>(1, 2) : 1, *range<int>(-40, 40), *range<int>(0, 96), *range<int>(0, 96), *range<int>(0, 3), *range<int64_t>(0, 1000000), *range<int>(24, 27)}));
+    c.push_back(Op("far", {tier ? *range<int>(1, 2) : 1, *range<int>(-40, 40), *range<int>(0, 96), *range<int>(0, 96), *range<int>(0, 3), *range<int64_t>(0, 1000000), *range<int>(24, 27), 2}));
     return c;
   }));
 }
+static Outcome run_far1(const Case &c, int forced_mode);
 static Outcome run_far(const Case &c) {
+  if (!c.empty() && c[0].a.size() > 7 && c[0].a[7] == 2) {  // both ways of getting there, one after the other
+    Outcome o1 = run_far1(c, 0);
+    if (!o1.ok) return o1;
+    Outcome o2 = run_far1(c, 1);
+    for (auto &cl : o1.classes) o2.cls(cl);
+    return o2;
+  }
+  return run_far1(c, -1);
+}
+static Outcome run_far1(const Case &c, int forced_mode) {
   Outcome o;
   if (c.empty() || c[0].a.size() < 7) return o;
   const auto &a = c[0].a;
@@ -880,6 +893,44 @@ static Outcome run_far(const Case &c) {
     ref_encrypt(rk, ctr, out);
   };
   uint64_t target = (k << 32) + (uint64_t)delta, pos = 0, judged = 0;
+  bool giant = forced_mode >= 0 ? forced_mode == 1 : (a.size() > 7 && (a[7] & 1));
+  if (giant) {
+    // ONE call of `target` bytes: the input is an untouched anonymous mapping (zeros), the output is a 2 MiB memfd mapped over and over
+    // into one contiguous region (so 4 GiB of output need 2 MiB of memory); what is left in the window afterwards is the end of the stream
+    const size_t WIN = (size_t)2 << 20;
+    size_t total = (size_t)target, nwin = (total + WIN - 1) / WIN;
+    uint8_t *in = (uint8_t *)mmap(nullptr, total, PROT_READ, MAP_PRIVATE | MAP_ANONYMOUS | MAP_NORESERVE, -1, 0);
+    uint8_t *out = (uint8_t *)mmap(nullptr, nwin * WIN, PROT_NONE, MAP_PRIVATE | MAP_ANONYMOUS | MAP_NORESERVE, -1, 0);
+    int mfd = memfd_create("c02-window", 0);
+    if (in == MAP_FAILED || out == MAP_FAILED || mfd < 0 || ftruncate(mfd, (off_t)WIN) != 0) harness_error("cannot set up the 4 GiB mappings");
+    for (size_t w = 0; w < nwin; w++)
+      if (mmap(out + w * WIN, WIN, PROT_READ | PROT_WRITE, MAP_SHARED | MAP_FIXED, mfd, 0) == MAP_FAILED) harness_error("mmap of an output window failed");
+    c02_ctr_stream(s, in, out, total);
+    // the last window holds stream positions [lastbase, total) at its start; behind that, the tail of the window before it
+    size_t lastbase = (nwin - 1) * WIN, have = total - lastbase;
+    auto judge_at = [&](uint64_t p0) {  // p0: a stream position (multiple of 16) whose block is still visible in the window
+      if (!o.ok || p0 + 16 > total) return;
+      size_t woff = (size_t)(p0 % WIN);
+      bool visible = p0 >= lastbase ? woff + 16 <= have : (p0 >= lastbase - WIN && woff >= have);
+      if (!visible) return;
+      uint8_t w[16];
+      ref_block(p0 / 16, w);
+      judged++;
+      if (memcmp(out + woff, w, 16) != 0) o.fail("ctr-giant-call", "ONE call of " + std::to_string(total) + " zero bytes: " + first_diff(out + woff, w, 16, p0));
+    };
+    for (uint64_t b = 0; b < 64; b++) judge_at(lastbase + 16 * b), judge_at((total / 16 - 1 - b) * 16), judge_at(lastbase - 16 * (b + 1));
+    if (total % 16) {  // the final partial block
+      uint8_t w[16];
+      ref_block(total / 16, w);
+      size_t woff = (size_t)((total / 16 * 16) % WIN);
+      if (o.ok && memcmp(out + woff, w, total % 16) != 0) o.fail("ctr-giant-call", "ONE call of " + std::to_string(total) + " zero bytes: last partial block wrong");
+    }
+    munmap(in, total);
+    munmap(out, nwin * WIN);
+    close(mfd);
+    pos = total;
+    o.cls("one-call-of->=2^32-bytes");
+  }
   uint8_t *buf = (uint8_t *)malloc(chunk);
   if (!buf) harness_error("malloc of the chunk buffer failed");
   while (pos < target && o.ok) {
